@@ -458,44 +458,6 @@ impl<Mod: Modulation> Worker<Mod> {
     }
 }
 
-/// Verification hook: runs the per-frame simulation chain of a BER test
-/// worker once (everything `Worker::simulate` does for one frame), with the
-/// channel and the demodulator built from the given noise sigmas, and returns
-/// `(bit_errors, frame_error, false_decode, iterations)`.
-#[cfg(feature = "verif-hooks")]
-#[allow(clippy::too_many_arguments, clippy::type_complexity)]
-pub fn verif_simulate_frame<Mod: Modulation, R: Rng>(
-    k: usize,
-    encoder: Encoder,
-    puncturer: Option<Puncturer>,
-    interleaver: Option<Interleaver>,
-    channel_sigma: f64,
-    demodulator_sigma: f64,
-    decoder: Box<dyn LdpcDecoder>,
-    max_iterations: usize,
-    rng: &mut R,
-) -> Result<(u64, bool, bool, u64), ()> {
-    let (results_tx, _results_rx) = mpsc::channel();
-    let (_terminate_tx, terminate_rx) = mpsc::sync_channel(1);
-    let mut worker = Worker::<Mod> {
-        terminate_rx,
-        results_tx,
-        k,
-        encoder,
-        puncturer,
-        interleaver,
-        modulator: Mod::Modulator::default(),
-        channel: AwgnChannel::new(channel_sigma),
-        demodulator: Mod::Demodulator::from_noise_sigma(demodulator_sigma),
-        decoder,
-        max_iterations,
-    };
-    worker
-        .simulate(rng)
-        .map(|r| (r.bit_errors, r.frame_error, r.false_decode, r.iterations))
-        .map_err(|_| ())
-}
-
 impl CurrentStatistics {
     fn new(has_bch: bool) -> CurrentStatistics {
         CurrentStatistics {
